@@ -17,11 +17,10 @@ def isUri : Line → Bool
 
 /-- the 13 media-playlist / media-segment tag kinds of the property statement -/
 def mediaKinds : List String :=
-  ["ExtInf", "ExtXByteRange", "ExtXDiscontinuity", "ExtXKey", "ExtXMap", "ExtXProgramDateTime", "ExtXDateRange",
-   "ExtXTargetDuration", "ExtXMediaSequence", "ExtXDiscontinuitySequence", "ExtXEndList", "PlaylistType", "ExtXIFramesOnly"]
+  ["ExtInf", "ExtXByteRange", "ExtXDateRange", "ExtXDiscontinuity", "ExtXDiscontinuitySequence", "ExtXEndList", "ExtXIFramesOnly", "ExtXKey", "ExtXMap", "ExtXMediaSequence", "ExtXProgramDateTime", "ExtXTargetDuration", "PlaylistType"]
 
 /-- the master tag kinds of the property statement (both stream-inf tags are `VariantStream`) -/
-def masterKinds : List String := ["ExtXMedia", "VariantStream", "ExtXSessionData", "ExtXSessionKey"]
+def masterKinds : List String := ["ExtXMedia", "ExtXSessionData", "ExtXSessionKey", "VariantStream"]
 
 /-- the regenerated tables are exactly the property's sets -/
 theorem tables_match : Generated.masterRejects = mediaKinds ∧ Generated.mediaRejects = masterKinds := by decide
